@@ -387,6 +387,7 @@ class CalcSystem:
     def __init__(self, cfg):
         self.config = cfg
         self.lf = build_lf4(cfg)
+        self._lf_lnl = float(self.lf.lnL)
         self.with_undo = cfg.get("with_undo", True)
         probe = self._make()
         self.n = len(probe.opt_pars)
@@ -614,6 +615,9 @@ class CalcSystem:
 
         fired = obs[-1]
         want = self.want(info2)
+        if all(v == 0 for v in info2) and not close(want, self._lf_lnl):
+            # the calculator route and the function's own route are two evaluations of the same settings
+            fail("a fresh calculator at the function's current values differs from the lnL the function reports", want, self._lf_lnl)
         if obs[0] == "ok":
             if fired:
                 fail("returned a value although a cell raised ParameterOutOfBoundsError", obs[1], "exception")
